@@ -1,0 +1,30 @@
+//go:build verif
+
+// Contracts for the deductive verification machinery in /verif (comment-only; compiled only with -tags=verif).
+package jobs
+
+// ---------------------------------------------------------------------------
+// C10: the chunk partition of a batch over the transform workers tiles [0, n) in order
+
+//@ lemma ceil_cover(n int, p int): p >= 1 && n >= 0 ==> p * ((n + p - 1) / p) >= n
+
+//@ assumed (jobs.Transform).getParallelism
+//@   pure
+
+//@ unit (*IncrementalPipeline).sync$1
+//@   prop C10
+//@   safe make slice
+//@   ghost covered int = 0
+//@   loop 1
+//@     invariant 0 <= i && i <= parallelisms && wid == i
+//@     invariant covered == min(index, len(entities))
+//@     invariant index == i * psize && psize >= 0 && parallelisms >= 1
+//@     invariant parallelisms * psize >= len(entities)
+//@     decreases parallelisms - i
+//@   at call Add#1 before
+//@     use ceil_cover(len(entities), parallelisms)
+//@   at call copy#1 before
+//@     assert [chunk-contiguous] from == covered && from <= to && to <= len(entities)
+//@     ghost covered := to
+//@   at call Wait#1 before
+//@     assert [all-covered] covered == len(entities)
